@@ -1,11 +1,35 @@
 """C04 - marks never change results, are never lost where promised, never invented."""
 from checks.opsfam import run_ops, replay_ops, ALL_OPS
+from checks.stdfam import run_std, replay_std
 
 def run(c, a):
-    c.rule_text = "WIP ops part"
+    c.rule_text = ("Two-run non-interference: TLC enumerates operand tuples / conversion requests / constructor member lists / standard-library argument "
+                   "lists and every placement of marks m1, m2 on the top level and on nested members (also combined with unknown and null values); "
+                   "the harness runs the real API on the marked inputs and on the same inputs with all marks stripped; TLC judges premise "
+                   "(stripped = UnmarkDeep(marked)), SameOutcome, SameValue (UnmarkDeep of the results equal), NoInvention, TopMarksKept (operation "
+                   "methods and Convert), DeepMarksKept (arguments of parameters without AllowMarked, read from the real function), SetHoists. "
+                   "Non-trivial = marked call succeeded with at least one mark present.")
+    c.assumptions = ["marks are the two strings m1, m2", "AllowMarked flags are read from the function's own Params()/VarParam()"]
     c.build_harness()
     if a.replay:
-        return replay_ops(c, c.load_replay(a.replay))
+        rec = c.load_replay(a.replay)
+        if rec["event"]["api"].startswith("fn:"):
+            return replay_std(c, rec)
+        return replay_ops(c, rec)
     ev = run_ops(c, "mark", ALL_OPS)
-    c.sample_events(ev, 3, lambda l: '"m1"' in l)
+    c.sample_events(ev, 1, lambda l: '"m1"' in l and '"m2"' in l)
     c.trace("OpsTrace", ev)
+    jobs, outs = [], []
+    for fam in ("convert", "ctor"):
+        out = c.path("vec-mark-%s.ndjson" % fam)
+        jobs.append(("MarkGen", {"VFAM": fam, "VTIER": c.tier, "VOUT": out}))
+        outs.append(out)
+    c.gen_parallel(jobs)
+    pairs = [(o, o.replace("vec-", "ev-")) for o in outs]
+    c.harness_parallel("ops", pairs)
+    ev2 = c.concat([p[1] for p in pairs], c.path("events-mark2.ndjson"))
+    c.sample_events(ev2, 1, lambda l: '"SetVal"' in l and '"m2"' in l)
+    c.trace("OpsTrace", ev2)
+    ev3 = run_std(c, "mark")
+    c.sample_events(ev3, 1, lambda l: '"am":[false' in l and '"m1"' in l)
+    c.trace("StdlibTrace", ev3)
